@@ -113,6 +113,11 @@ def admissible_path(specs):
             return False
         if s[0] == 'A' and (s[2][0] == 0 or s[2][1] == 0):
             return False
+        if s[0] == 'A':
+            from vp.ref import arc_ref
+            L = arc_ref.lam(s[1], s[2][0], s[2][1], s[3], s[6])
+            if not (1e-12 < L < 1e12):
+                return False      # chord/radius ratio beyond 1e6: Arc construction itself is C04's finding KF01
     return True
 
 
@@ -135,7 +140,12 @@ def same_path(ctx, where, orig, got, M=None):
             for t in (0.0, 0.3, 0.5, 0.8, 1.0):
                 want = D.apply(M, complex(a.point(t)))
                 have = complex(b.point(t))
-                ctx.check(abs(have - want) <= (1e-6 if isinstance(a, Arc) else 1e-9) * (size * sc + abs(want)) + 1e-12, where + '/transformed_geometry',
+                atol = (1e-6 if isinstance(a, Arc) else 1e-9) * (size * sc + abs(want)) + 1e-12
+                if isinstance(a, Arc):
+                    # very eccentric / exactly fitting arcs are only accurate to ~2e-4 of their size after re-derivation (C04, C10)
+                    ecc = max(a.radius.real, a.radius.imag) / min(a.radius.real, a.radius.imag)
+                    atol += 1e-7 * abs(a.radius) * sc * ecc
+                ctx.check(abs(have - want) <= atol, where + '/transformed_geometry',
                           '%s: point at t=%r is %r, expected %r' % (where, t, have, want))
 
 
@@ -270,7 +280,8 @@ def check_history(case, ctx, tmp):
                 if i in used or len(g) != len(m['path']):
                     continue
                 try:
-                    ok = all(type(a) is type(b) and abs(complex(b.point(0.5)) - D.apply(M, complex(a.point(0.5)))) <= 1e-6 * (1 + abs(D.apply(M, complex(a.point(0.5)))))
+                    msc = max(abs(M[0][0]), abs(M[0][1]), abs(M[1][0]), abs(M[1][1]), 1.0)
+                    ok = all(type(a) is type(b) and abs(complex(b.point(0.5)) - D.apply(M, complex(a.point(0.5)))) <= 1e-6 * (1 + abs(D.apply(M, complex(a.point(0.5))))) + _mid_tol(a) * msc
                              and abs(complex(b.start) - D.apply(M, complex(a.start))) <= 1e-6 * (1 + abs(complex(b.start)))
                              for a, b in zip(m['path'], g))
                 except Exception:
